@@ -137,3 +137,62 @@ def observed(a):
 
 def diff(exp, obs):
     return {k: [exp[k], obs.get(k)] for k in exp if exp[k] != obs.get(k)}
+
+
+def expand_static(P):
+    """The explicit per-residue form of a peptide with global static rules (own expansion, order: own mods first)."""
+    Q = {k: v for k, v in P.items() if k != 'static'}
+    if not P.get('static'):
+        return Q
+    seq = P['seq']
+    res = {int(i): list(ms) for i, ms in P.get('res', [])}
+    nterm = list(P.get('nterm') or [])
+    cterm = list(P.get('cterm') or [])
+    for rule in P['static']:
+        for t in rule['targets']:
+            if t == 'N-Term':
+                nterm += [list(m) for m in rule['mods']]
+            elif t == 'C-Term':
+                cterm += [list(m) for m in rule['mods']]
+            else:
+                for i, aa in enumerate(seq):
+                    if aa == t:
+                        res.setdefault(i, [])
+                        res[i] = res[i] + [list(m) for m in rule['mods']]
+    if res:
+        Q['res'] = [[i, res[i]] for i in sorted(res)]
+    if nterm:
+        Q['nterm'] = nterm
+    if cterm:
+        Q['cterm'] = cterm
+    return Q
+
+
+def observed_explicit(a, rules):
+    """observed() of a library annotation with any static rules it still carries expanded by the harness (the rule
+    texts must be among `rules`, the rules of the abstract peptide)."""
+    o = observed(a)
+    if not o['static']:
+        return o, None
+    by_text = {}
+    for r in rules or []:
+        by_text[repr(static_text(r, False))] = r
+        by_text[repr(static_text(r, True))] = r
+    P = {'seq': o['sequence'], 'static': []}
+    for text, _mult in o['static']:
+        if text not in by_text:
+            return o, f'unexpected static rule {text}'
+        P['static'].append(by_text[text])
+    Q = expand_static(P)
+    add_res = {int(i): _em(ms) for i, ms in Q.get('res', [])}
+    internal = dict(o['internal'] or {})
+    for i, ms in add_res.items():
+        internal[str(i)] = sorted((internal.get(str(i)) or []) + ms, key=repr)
+    o = dict(o)
+    o['internal'] = internal or None
+    if Q.get('nterm'):
+        o['nterm'] = sorted((o['nterm'] or []) + _em(Q['nterm']), key=repr)
+    if Q.get('cterm'):
+        o['cterm'] = sorted((o['cterm'] or []) + _em(Q['cterm']), key=repr)
+    o['static'] = None
+    return o, None
